@@ -132,8 +132,21 @@ func (cx *Ctx) runC01() {
 	// minimise one instance per failure class (smallest original first)
 	cx.phase(fmt.Sprintf("C01: %d failure classes, minimising", len(failByKey)))
 	sort.SliceStable(cands, func(a, b int) bool { return len(cands[a].job.Calls[0].Edges) < len(cands[b].job.Calls[0].Edges) })
+	// the whole minimisation phase is bounded: a hang costs its full budget on every evaluation
+	phaseEnd := time.Now().Add(6 * time.Minute)
+	if cx.Tier == "thorough" {
+		phaseEnd = time.Now().Add(25 * time.Minute)
+	}
 	for _, cd := range cands {
 		if cx.hasViolation(cd.key) {
+			continue
+		}
+		if time.Now().After(phaseEnd) {
+			// out of time: report the instance as found, unminimised (it ran in a fresh process, so it replays as is)
+			j := *cd.job
+			j.Res = []spec.Resolution{cd.job.Res[cd.j]}
+			cx.report(cd.key, fmt.Sprintf("Layout(%s; %s) failed (%s); not minimised (time)", edgesText(j.Calls[0].Edges), optsText(j.Calls[0].Opts), cd.key),
+				&ReplayFile{Property: "C01", Oracle: "c01.returns", Key: cd.key, Jobs: []ReplayJob{{Pool: "simfresh", Job: j}}})
 			continue
 		}
 		if cx.isKnown(cd.key) != nil {
